@@ -135,6 +135,9 @@ class FastHierarchyAnalyzer(HierarchyAnalyzerBase):
                 raise RuntimeError(f'Selection-choice nodes left for dv: {opt_idx}')
             return tuple(taken_sel_opt), graph
 
+        # Imputation results depend on which design variables are fixed (fixed variables are not modified)
+        fixed_key = tuple(bool(fixed) for fixed in is_fixed)
+
         # Iterate over current and neighboring design vectors
         tried = []
         opt_idx_imp = opt_idx
@@ -145,8 +148,8 @@ class FastHierarchyAnalyzer(HierarchyAnalyzerBase):
                 continue
 
             # Check cache
-            if opt_idx_try in self._imputation_cache:
-                outputs = self._imputation_cache[opt_idx_try]
+            if (opt_idx_try, fixed_key) in self._imputation_cache:
+                outputs = self._imputation_cache[opt_idx_try, fixed_key]
                 if tuple(outputs[1]) not in exclude:
                     return outputs
 
@@ -178,7 +181,7 @@ class FastHierarchyAnalyzer(HierarchyAnalyzerBase):
         activeness = list(np.array(choice_opt_idx) != X_INACTIVE_VALUE)
         outputs = (graph_instance, choice_opt_idx, activeness, None)
         for key in tried:
-            self._imputation_cache[key] = outputs
+            self._imputation_cache[key, fixed_key] = outputs
         return outputs
 
     def _iter_neighborhood(self, opt_idx: List[int], is_fixed: List[bool]) -> Generator[Tuple[int, ...], None, None]:
